@@ -172,6 +172,42 @@ def run(ck, m):
     oks = bool(sorts) and all(lb.postdominates(s_, 0) for s_ in sorts)
     ck.ob('C01.c', fn, 'sorted', oks, 'the result is sorted on every path before it is returned' if oks else 'the key list is returned unsorted',
           lb.loc(sorts[0]) if sorts else '%s:%s' % (lb.file, lb.line))
+    # the matcher is handed the pattern the client sent: no rewriting of the pattern text between the request and the matcher (the
+    # prefix / suffix matchers strip the wildcard themselves; the contains matcher takes the text literally, `*` included)
+    nm_, rew = 0, []
+    for cb_ in [lb] + [P.bodies[k_] for k_ in P.bodies if k_.startswith(lb.id + '::{closure')]:
+        for bi_, t_ in cb_.calls():
+            if not t_['f'].get('ind') or len(t_['args']) < 2:
+                continue
+            nm_ += 1
+            for a_ in t_['args']:
+                roots_ = core.deep_field_roots  # noqa (kept for symmetry)
+                srcs = origins(cb_, a_)
+                for r_ in srcs:
+                    if r_[0] != 'capture':
+                        continue
+                    site = P.closure_sites().get(cb_.id)
+                    if site is None:
+                        continue
+                    pb_, sbi_, ssi_, ops_ = site
+                    if r_[1] >= len(ops_):
+                        continue
+                    from nl.locks import backward_slice as _bs2
+                    calls_, params_ = _bs2(pb_, ops_[r_[1]])
+                    if 2 not in params_:
+                        continue        # not the pattern
+                    bad_ = sorted({callee_decl(pb_.term(c_)).split('::')[-1] for c_ in calls_
+                                   if callee_decl(pb_.term(c_)).startswith(('std::str::', 'std::string::String::'))
+                                   and callee_decl(pb_.term(c_)).split('::')[-1] in ('replace', 'replacen', 'trim', 'trim_matches', 'trim_start_matches',
+                                                                                      'trim_end_matches', 'trim_start', 'trim_end', 'to_lowercase',
+                                                                                      'to_uppercase', 'strip_prefix', 'strip_suffix', 'split', 'truncate')})
+                    if bad_:
+                        rew.append((bad_, pb_.loc(sbi_)))
+    ck.ob('C01.c', fn, 'matcher-gets-the-pattern-as-sent', not rew,
+          'the pattern reaches the matcher as the client sent it' if not rew else
+          'the listing rewrites the pattern (%s) before it hands it to the matcher: the contains matcher takes the text literally, so '
+          '`keys price*qty` lists `priceqty` and hides the key `price*qty`' % rew, rew[0][1] if rew else '')
+    ck.floor('C01.c', nm_, 1, 'matcher calls in the listing')
     # pattern selector
     sel = [b for b in P.user_bodies() if b.kind == 'fn' and b.locals[0].startswith("for<'a, 'b> fn(&'a std::string::String, &'b std::string::String) -> bool")]
     if len(sel) != 1:
@@ -260,6 +296,13 @@ def run(ck, m):
         if from_parse and from_arg:
             oke = True
             whye = 'stored number = add(parsed current value, the increment argument)'
+    # exactness: near the i32 bounds the sum must be refused, not clamped or wrapped (reply Ok while the value grew by less than asked)
+    inexact = [(callee_decl(t).split('::')[-1], ib.loc(bi)) for bi, t in adds if callee_decl(t) in ('std::num::wrapping_add', 'std::num::saturating_add')
+               and any(r[0] == 'param' and r[1] == 3 for r in origins(ib, t['args'][1]))]
+    ck.ob('C01.e', short(ib.id), 'adds-exactly-or-refuses', not inexact,
+          'the sum is computed with an overflow check: a result outside i32 is refused' if not inexact else
+          'the increment computes the sum with %s: when value + argument leaves the i32 range the command answers Ok and stores a value that '
+          'is NOT value + argument (clamped / wrapped) instead of refusing and leaving the value unchanged' % inexact, inexact[0][1] if inexact else '')
     zero = any(const_str(r) == '0' for bi, t in ib.calls() for a in t['args'] for r in origins(ib, a))
     ck.ob('C01.e', short(ib.id), 'adds-its-argument', oke and zero, whye + ('; absent default "0"' if zero else '; no "0" default'),
           '%s:%s' % (ib.file, ib.line))
